@@ -15,19 +15,19 @@ LEVEL = 'exploration'
 RULE = ("seeded templates (flat and hierarchical, shared operator / node template objects, per-node overrides, edges defined at "
         "several levels) x random sequences (length 2-7) over the operations the property lists: get_run_func / "
         "get_jacobian_func / run with in_place=False, get_nodes, get_edges, get_edge, collect_edges, get_node_template, "
-        "__getitem__, to_yaml, deepcopy, update_template (not in place) of the circuit and of its operator templates (list / replace / variables forms); after every operation the structural fingerprint (M-tpl) "
+        "__getitem__, to_yaml, deepcopy, update_template (not in place) of the circuit, of its operator templates (list / replace / variables forms) and of its node templates (followed by update_var on the derived template); after every operation the structural fingerprint (M-tpl) "
         "of the template, of all operator / node templates it is built from and of a sibling circuit sharing those objects "
         "must be unchanged; at the end the vector field must still equal the reference model and two run(in_place=False) calls "
         "must return identical frames equal to the reference trajectory; non-trivial = sequence contains >= 1 compile and >= 1 "
         "getter/dump; distinct = distinct (spec, sequence) hash")
 DECIDING = ['fingerprint_checks', 'final_vf_checks', 'repeat_run_checks', 'op_get_edges', 'op_to_yaml', 'op_get_run_func', 'op_run',
-            'op_deepcopy', 'op_update_template', 'op_collect_edges', 'op_get_jacobian_func', 'op_op_update_template']
+            'op_deepcopy', 'op_update_template', 'op_collect_edges', 'op_get_jacobian_func', 'op_op_update_template', 'op_nt_update_template']
 ASSUMPTIONS = ['the CircuitTemplate.state carry-over (final state of the last simulation) is documented statefulness and not part '
                'of the fingerprint; behaviour is compared at given states, not through the remembered initial state']
 CASE_TIMEOUT = 240
 FOCUS = ['compile_mixed_vectorize', 'to_yaml_with_variations']
 OPS = ['get_run_func', 'get_jacobian_func', 'run', 'get_nodes', 'get_edges', 'get_edge', 'collect_edges', 'get_node_template',
-       'getitem', 'to_yaml', 'deepcopy', 'update_template', 'op_update_template']
+       'getitem', 'to_yaml', 'deepcopy', 'update_template', 'op_update_template', 'nt_update_template']
 
 
 def plan(tier, seed):
@@ -152,6 +152,16 @@ def run_case(case, ctx):
                     c2 = copy.deepcopy(tmpl)
                     c2.update_var(node_vars={'/'.join(ref.param_keys[0]) if False else '/'.join(k): 9.99 for k in ref.param_keys[:1]
                                              if ref.kind[k] == 'const'})
+                elif op == 'nt_update_template':
+                    # derive a NodeTemplate from one of the shared node template objects (not in place) and modify the DERIVED one
+                    ntname = rnd.choice(sorted(objs['nts']))
+                    nt_o = objs['nts'][ntname]
+                    new = nt_o.update_template(name=ntname + '_d')
+                    opn_ = rnd.choice(spec['node_types'][ntname]['ops'])
+                    consts = [v_ for v_, d_ in spec['ops'][opn_]['vars'].items() if d_[0] == 'const']
+                    if consts:
+                        new.update_var(opn_, consts[0], 7.77)
+                    del new
                 elif op == 'op_update_template':
                     # derive a new OperatorTemplate from one of the shared operator objects (not in place): list form that
                     # drops most variables, dict forms (replace / remove) that leave a constant unused, extra variables
